@@ -3,6 +3,7 @@ package props
 import (
 	"bytes"
 	"fmt"
+	"io"
 	"testing"
 	"time"
 
@@ -67,10 +68,16 @@ func TestC15(t *testing.T) {
 			desc := func() string {
 				return "ReadCSV under reader faults\n" + c.String() + fmt.Sprintf("\nerror together with last bytes: %v, error %#v", withData, rerr)
 			}
-			mk := func(failAt int) *hx.ChunkReader {
+			// the failing reader may also offer what in-memory readers offer (Len, as strings.Reader and bytes.Buffer
+			// do): code that sizes its buffers from it must still see the failure
+			hasLen := rapid.IntRange(0, 2).Draw(t, "readerhaslen") == 0
+			mk := func(failAt int) io.Reader {
 				rd := hx.NewChunkReader(data, c.schedule, c.eofWith)
 				rd.NoCycle = c.noCycle
 				rd.FailAt, rd.FailErr, rd.FailWithData = failAt, rerr, withData
+				if hasLen {
+					return hx.LenReader{ChunkReader: rd}
+				}
 				return rd
 			}
 			full := qframe.ReadCSV(mk(-1), c.confFns()...)
@@ -190,7 +197,25 @@ func TestC15(t *testing.T) {
 			tab := noInf(hx.GenTable(t, hx.TableOpt{MinCols: 1, MaxCols: 4, Rows: rapid.IntRange(1, 15)}))
 			d := hx.GenDerived(t, tab, 2)
 			n := d.QF.Len()
-			desc := func() string { return "ToSQL under driver faults\n" + d.String() }
+			// any dialect configuration: the write path may differ with the options (placeholder style, presets)
+			dopts := rapid.SampledFrom([]string{"plain", "incrementing", "postgres", "mysql", "sqlite", "escape"}).Draw(t, "sqldialect")
+			sqlFns := func() []qsql.ConfigFunc {
+				fns := []qsql.ConfigFunc{qsql.Table("t")}
+				switch dopts {
+				case "incrementing":
+					fns = append(fns, qsql.Incrementing())
+				case "postgres":
+					fns = append(fns, qsql.Postgres())
+				case "mysql":
+					fns = append(fns, qsql.MySQL())
+				case "sqlite":
+					fns = append(fns, qsql.SQLite())
+				case "escape":
+					fns = append(fns, qsql.EscapeChar('"'))
+				}
+				return fns
+			}
+			desc := func() string { return "ToSQL (" + dopts + ") under driver faults\n" + d.String() }
 			for mode := 0; mode < 2; mode++ {
 				for k := 0; k < n; k++ {
 					m, db := faults.New()
@@ -204,7 +229,7 @@ func TestC15(t *testing.T) {
 						t.Fatal(err)
 					}
 					var werr error
-					if perr := hx.Safely(func() { werr = d.QF.ToSQL(tx, qsql.Table("t")) }); perr != nil {
+					if perr := hx.Safely(func() { werr = d.QF.ToSQL(tx, sqlFns()...) }); perr != nil {
 						t.Fatalf("ToSQL panicked with statement %d failing (mode %d): %v\n%s", k, mode, perr, desc())
 					}
 					_ = tx.Rollback()
